@@ -263,6 +263,31 @@ func c17Gen(c *Ctx) {
 			t.Try("every-byte/CamelCaseToSnake", c17Case(7, s), true)
 		}
 	})
+	// ---- part 0b: every number of replaced runes 0..70 in Mask (a table of precomputed mask runs, a fast path up to some
+	// width): strings of 33, 40 and 70 runes (ASCII and mixed widths), every start, every end
+	{
+		var jobs [][3]int
+		for _, L := range []int{33, 40, 70} {
+			for st := 0; st <= L; st++ {
+				for en := 0; st+en <= L; en++ {
+					jobs = append(jobs, [3]int{L, st, en})
+				}
+			}
+		}
+		c.Each(len(jobs), func(i int, t *T) {
+			j := jobs[i]
+			var sb []byte
+			for k := 0; k < j[0]; k++ {
+				if i%2 == 0 {
+					sb = append(sb, byte('a'+k%26))
+				} else {
+					sb = append(sb, c17Pieces[(k*7+i)%6]...) // a Z _ é € 😀
+				}
+			}
+			m := [][]byte{[]byte("*"), []byte("*"), []byte("#"), []byte("é")}[i%4]
+			t.Try("mask-every-width", c17MaskCase(sb, m, int64(j[1]), int64(j[2])), true)
+		})
+	}
 	// ---- part 1: every string of <= 3 pieces over the small alphabet, arguments 0..runes+3 (and -1)
 	K := c17SmallAlphabet
 	L := c.N(3, 4)
